@@ -86,6 +86,7 @@ def contexts(E, n, in_t):
             "init_g_double": ("gdecl", "double Dg%d = %s * 0.5;" % (n, E)),
             "init_g_bool": ("gdecl", "bool Bg%d = %s > 0;" % (n, E)),
             "init_g_array": ("gdecl", "int Ga%d[2] = { %s, 0 };" % (n, E)),
+            "init_g_tdarray": ("gdecl", "typedef int TA%d[2]; TA%d Gt%d[2] = { { %s, 0 }, { 0, 0 } };" % (n, n, n, E)),      # an array whose elements are arrays through a type name
             "init_g_record": ("gdecl", "struct { int a; int b; } Gs%d = { 1, %s };" % (n, E)),
             "init_meta": ("gdecl", "meta int Im%d = %s;" % (n, E)),
             "iter_dom": ("gdecl", "void Gi%d() { for (it : int[0,%s]) { } }" % (n, E)),
@@ -180,7 +181,7 @@ def run(tier):
     c.cov["traces_validated_against_impl"] = len(cases) + len(inst)
     c.cov["evaluations"] = len(cases) + len(inst)
     c.cov["distinct_nontrivial"] = nontrivial
-    c.cov["rule"] = "every dependence chain (6 leaves x link sequences of length<=3 over {const init, function return, function local, by-value call, template-level const}) in each of 25 compile-time contexts; 24 template-parameter/instantiation chains; non-trivial = semantics says not computable / must be rejected"
+    c.cov["rule"] = "every dependence chain (6 leaves x link sequences of length<=3 over {const init, function return, function local, by-value call, template-level const}) in each of 26 compile-time contexts; 24 template-parameter/instantiation chains; non-trivial = semantics says not computable / must be rejected"
     c.cov["exhaustive"] = True
     for k in (0, len(cases) // 2, len(cases) - 1):
         ch, ctx, g, t = info[cases[k]["id"]]
